@@ -390,6 +390,26 @@ def r14_std(text):
     return text, n
 
 
+KEEP_MODS = ('classic', 'enhanced', 'cc_classic', 'cc_enhanced')
+
+
+def r21_flatten_paths(text):
+    """R21: every extracted item lives in ONE generated module, so crate-internal paths are flattened:
+    `crate::a::b::X` / `srtla_core::a::X` / `srtla_protocol::X` -> `X` (a trailing module that exists as a generated
+    sub-module -- classic / enhanced -- is kept), and body-level `use crate::..;` lines are dropped."""
+    text, k0 = re.subn(r'^[ \t]*use (?:crate|srtla_core|srtla_protocol|super)::[^;]*;[ \t]*\n', '', text, flags=re.M)
+    def sub(m):
+        segs = m.group(0).split('::')
+        tail = segs[-1]
+        if len(segs) >= 3 and segs[-2] in KEEP_MODS:
+            return segs[-2] + '::' + tail
+        if len(segs) >= 3 and segs[-2][:1].isupper():
+            return segs[-2] + '::' + tail     # Type::assoc
+        return tail
+    text, k = re.subn(r'\b(?:crate|srtla_core|srtla_protocol)(?:::\w+)+', sub, text)
+    return text, k0 + k
+
+
 def clean_source(text, stats, *, features=(), log_free=True):
     """R0..R14 on one extracted item."""
     text = strip_comments(text)
@@ -397,7 +417,7 @@ def clean_source(text, stats, *, features=(), log_free=True):
     for name, fn in (('R4', lambda t: r4_resolve_cfg(t, features)), ('R1', r1_strip_log_macros), ('R2', r2_format),
                      ('R3', r3_strip_attrs), ('R5', r5_vis), ('R6', r6_types), ('R10', r10_opt_closures),
                      ('R14', r14_std), ('R9', r9_let_chains), ('R8', r8_range_inclusive), ('R7', r7_cursor_loops),
-                     ('R7t', r7_tuple_loops), ('R13', r13_compound_assign)):
+                     ('R7t', r7_tuple_loops), ('R13', r13_compound_assign), ('R21', r21_flatten_paths)):
         text, k = fn(text)
         if k:
             stats[name] += k
@@ -550,3 +570,17 @@ def r20_str_opt_match(text, s_expr, o_expr, eq='str_eq'):
         else:
             raise RuleError('R20: unsupported tuple pattern ' + head)
     return text[:m.start()] + '\n        '.join(out) + text[cb + 1:], len(arms)
+
+
+def r12_filter_count(text):
+    """`let X = E.iter().filter(|c| COND).count();`  ->  a counting cursor loop (COND text kept verbatim):
+        let mut X_n: usize = 0; let mut c_nx: usize = 0;
+        while c_nx < E.len() /*@LOOPSPEC*/ { let c = &E[c_nx]; c_nx += 1; if COND { X_n += 1; } }
+        let X = X_n;"""
+    pat = re.compile(r'let (\w+) = (\w+(?:\.\w+)*)\s*\.iter\(\)\s*\.filter\(\|(\w+)\| (.*?)\)\s*\.count\(\);', re.S)
+    def sub(m):
+        x, e, c, cond = m.group(1), m.group(2), m.group(3), m.group(4).strip()
+        return ('let mut %s_n: usize = 0;\n        let mut %s_nx: usize = 0;\n        while %s_nx < %s.len() /*@LOOPSPEC*/\n        {\n'
+                '            let %s = &%s[%s_nx]; %s_nx += 1;\n            if %s { %s_n += 1; }\n        }\n        let %s = %s_n;'
+                % (x, c, c, e, c, e, c, c, cond, x, x, x))
+    return pat.subn(sub, text)
